@@ -1,7 +1,7 @@
 ---------------------------- MODULE Trace_Palette ----------------------------
 (* Validates recorded executions of the real Palette code against Palette.tla *)
 (* (C16).  Events (see harness/src/small.rs, fn c16):                         *)
-(*  reset{colors} ins{c,ret,colors} set{i,c,colors} resize{n,colors} clear    *)
+(*  reset{colors} ins{c,ret,colors} set{i,c,colors} setn{i,c,n,colors} resize clear *)
 (*  add{via,colors}   - colour added through a terminal sequence (SGR 38/48;2,*)
 (*                      CSI ..t): index-stability only                        *)
 (*  file{fmt,in,out,ok}  export -> import of a palette file                   *)
@@ -28,6 +28,9 @@ Next ==
           [] e.ev = "add" ->
                /\ Bump(5)
                /\ Check(IndexStable(colors, e.colors), "C16", "IndexStable", l, [via |-> e.via])
+               /\ colors' = e.colors
+          [] e.ev = "setn" ->    \* Palette::set_color with a named colour: the trace records RGB only
+               /\ Expect(SetColor(colors, e.i, e.c).colors = e.colors, "setn", l, [i |-> e.i])
                /\ colors' = e.colors
           [] e.ev = "set" ->
                /\ Expect(SetColor(colors, e.i, e.c).colors = e.colors, "set", l, [i |-> e.i])
